@@ -833,3 +833,67 @@ Proof.
         apply last_effect_none_iff in Hn. unfold latest in G. rewrite Hn in G. discriminate.
       * rewrite G. left. reflexivity.
 Qed.
+
+(* ------------------------------------------------------------------------------------ *)
+(* Part H: the hierarchical iterator over arbitrary sorted sources; examples, refutations   *)
+(* ------------------------------------------------------------------------------------ *)
+
+Theorem hier_scan_sources : forall srcs, Forall src_ok srcs ->
+  collect eng_it (hier_new srcs) = merge_view (map s_all srcs).
+Proof.
+  intros srcs H. assert (Hok : eng_ok (hier_new srcs)).
+  { unfold eng_ok, hier_ok, hier_new. cbn [h_srcs h_valid]. split; [exact H|discriminate]. }
+  rewrite (collect_spec _ _ _ _ Leng _ Hok). reflexivity.
+Qed.
+
+Theorem merge_view_spec : forall cs, Forall ksorted cs ->
+  kstrict (merge_view cs) /\ forall k v, In (k, v) (merge_view cs) <-> first_val k cs = Some v.
+Proof. intros cs H. split; [apply merge_view_strict; exact H|intros k v; apply merge_view_in; exact H]. Qed.
+
+(* memtable (two versions of key 3, the newer a deletion marker) over an SSTable *)
+Example hier_scan_ex :
+  let m := mkSrc KMem [([1], Some [10]); ([3], None); ([3], Some [30]); ([5], Some [50])] [] in
+  let t := mkSrc KSst [([2], Some [20]); ([3], Some [33]); ([7], Some [70])] [] in
+  collect eng_it (hier_new [m; t]) =
+    [([1], Some [10]); ([2], Some [20]); ([3], None); ([5], Some [50]); ([7], Some [70])] /\
+  scan eng_it 0 (hier_new [m; t]) = [([1], [10]); ([2], [20]); ([5], [50]); ([7], [70])] /\
+  scan (eng_range_it (Some [2]) (Some [6])) 0 (hier_new [m; t]) = [([2], [20]); ([5], [50])] /\
+  pos eng_it (fst (i_seek eng_it [4] (hier_new [m; t]))) = Some ([5], Some [50]) /\
+  pos eng_it (i_last eng_it (hier_new [m; t])) = Some ([7], Some [70]) /\
+  pos (eng_range_it (Some [2]) (Some [6])) (i_last (eng_range_it (Some [2]) (Some [6])) (hier_new [m; t]))
+    = Some ([5], Some [50]).
+Proof. vm_compute. repeat split. Qed.
+
+(* a program whose data ends up in an SSTable, an immutable and the active memtable *)
+Example eng_scan_ex :
+  let ops := [OPut [1] [10]; OPut [2] [20]; OFlush; OPut [2] [21]; ODel [1]; OPut [3] [30];
+              OBatch [([4], Some [40]); ([3], None)]; OPut [5] []] in
+  let s := run (mkCfg 60 1000) ops in
+  lost_log s = false /\
+  length (eng_sources s) = 4%nat /\
+  collect eng_it (eng_iter s) = [([1], None); ([2], Some [21]); ([3], None); ([4], Some [40]); ([5], Some [])] /\
+  scan eng_it 0 (eng_iter s) = [([2], [21]); ([4], [40]); ([5], [])] /\
+  scan (eng_range_it (Some [3]) None) 1 (eng_iter s) = [([4], [40])] /\
+  scan tx_it 0 (tx_full s [([2], None); ([6], Some [60])]) = [([4], [40]); ([5], []); ([6], [60])] /\
+  scan (filtered_iter (eng_range_it None None) (prefix_filter [4])) 0 (eng_iter s) = [([4], [40])].
+Proof. vm_compute. repeat split. Qed.
+
+(* D24: SeekToLast of the pinned BoundedIterator backs up only when Seek(end) lands on a key
+   EQUAL to the end bound: keys 1,3,5,7, range [1,6): invalid although 1,3,5 are in range *)
+Example seek_to_last_pinned_refuted :
+  let t := mkSrc KSst [([1], Some [1]); ([3], Some [3]); ([5], Some [5]); ([7], Some [7])] [] in
+  let h := hier_new [t] in
+  b_check eng_it (Some [1]) (Some [6]) (b_last_pinned eng_it (Some [6]) h) = false /\
+  pos (eng_range_it (Some [1]) (Some [6])) (i_last (eng_range_it (Some [1]) (Some [6])) h) = Some ([5], Some [5]).
+Proof. vm_compute. split; reflexivity. Qed.
+
+(* D25: Seek of the pinned BoundedIterator with a target at or behind the end bound returns
+   false but leaves Valid/Key on the earlier position, a key SMALLER than the target *)
+Example bounded_seek_stale_refuted :
+  let t := mkSrc KSst [([1], Some [1]); ([3], Some [3]); ([5], Some [5]); ([7], Some [7])] [] in
+  let h1 := i_first (eng_range_it (Some [1]) (Some [6])) (hier_new [t]) in
+  let r := b_seek_gen eng_it (Some [1]) (Some [6]) false [9] h1 in
+  snd r = false /\ b_check eng_it (Some [1]) (Some [6]) (fst r) = true /\ i_key eng_it (fst r) = [1] /\
+  (* the repaired Seek leaves the iterator invalid *)
+  b_check eng_it (Some [1]) (Some [6]) (fst (b_seek_gen eng_it (Some [1]) (Some [6]) true [9] h1)) = false.
+Proof. vm_compute. repeat split. Qed.
